@@ -229,3 +229,49 @@ def hist_parse(x0, style):
 ob("C10", "hist.parse_docstring", {"x0": CP, "style": R(0, 6)}, T=600,
    funcs=["cdd.shared.docstring_parsers.parse_docstring"],
    bound="ReST docstring with ANY code point as description, then one of seven concrete docstrings (ReST/Google/NumPy; two with a nested Usage block / trailing prose after the sections): result of the second is the same before/after/again")(hist_parse)
+
+
+# ------------------------------------------------------------------------------------------- gen: module assembly
+import cdd.compound.gen_utils as _gu  # noqa: E402
+
+if os.environ.get("CHX_NO_INSTRUMENT") != "1":
+    SWAPPED += instrument_nd(_gu)
+GEN_SRC = ("class %s(object):\n    '''\n    Doc.\n\n    :cvar a: an a\n    :cvar b: a b\n    '''\n    a: Optional[int] = 5\n    b: %s = None\n")
+GEN_TYPES = ("Optional[List[str]]", "Union[int, str]", "Dict[str, int]")
+
+
+def _gen(mask, infer):
+    import contextlib
+    import io
+
+    entries = [("E%d" % i, ast.parse(GEN_SRC % ("E%d" % i, t)).body[0]) for i, t in enumerate(GEN_TYPES) if mask & (1 << i)]
+    with contextlib.redirect_stdout(io.StringIO()):
+        return _gu.gen_module(decorator_list=[], emit_and_infer_imports=infer, emit_call=False, emit_default_doc=False, emit_name="class_",
+                              functions_and_classes=None, imports="", input_mapping_it=iter(entries), name_tpl="{name}Cfg", no_word_wrap=True,
+                              parse_name="class", prepend=None)
+
+
+def nd_gen_module(mask, infer, k0, k1):
+    ND.reset((k0, k1))
+    try:
+        a = _gen(mask, infer)
+    except Exception as e:
+        a = "raised %s" % type(e).__name__
+    ND.reset((), canonical=True)
+    try:
+        b = _gen(mask, infer)
+    except Exception as e:
+        b = "raised %s" % type(e).__name__
+    if (a if isinstance(a, str) else _dump(a)) != (b if isinstance(b, str) else _dump(b)):
+        return "gen_module output (imports / symbols / __all__) depends on set iteration order"
+    return ""
+
+
+def nd_gen_module_replay(mask, infer, k0, k1):
+    return hashseed_diag("from harness.c10 import _gen, _dump\nm=_gen(%d, %r)\nprint(_dump(m))" % (mask, bool(infer)))
+
+
+ob("C10", "nd.gen_module", {"mask": R(1, 7), "infer": BOOL, "k0": R(0, 5), "k1": R(0, 5)}, T=600, tpath=120, replay=nd_gen_module_replay,
+   funcs=["cdd.compound.gen_utils.gen_module", "cdd.compound.gen_utils.get_functions_and_classes", "cdd.shared.ast_utils.infer_imports", "cdd.shared.ast_utils.optimise_imports"],
+   assumes=[ND_ASSUME],
+   bound="gen_module on ANY non-empty subset of three class entries using typing names, import inference on/off; first two set iterations permuted by the solver")(nd_gen_module)
